@@ -197,6 +197,7 @@ func Run(t *testing.T, harness func()) {
 	case <-done:
 	case <-time.After(10 * time.Second):
 		fmt.Println("VRT-HARNESS-BLOCKED")
+		gateReport()
 		buf := make([]byte, 1<<20)
 		n := runtime.Stack(buf, true)
 		fmt.Printf("%s\n", buf[:n])
@@ -215,8 +216,12 @@ func Run(t *testing.T, harness func()) {
 	mu.Lock()
 	defer mu.Unlock()
 	if len(failures) > 0 {
+		mu.Unlock()
+		gateReport()
+		mu.Lock()
 		t.Fatalf("%d assertion(s) failed: %v", len(failures), failures)
 	}
+	gateReport()
 	fmt.Println("VRT-HARNESS-DONE")
 }
 
@@ -246,4 +251,115 @@ func PickStr(label string, a, b string) string {
 func IsNonNilPointer(v any) bool {
 	rv := reflect.ValueOf(v)
 	return rv.Kind() == reflect.Ptr && !rv.IsNil()
+}
+
+// ---- schedule gating (forced replay of the solver's interleaving)
+//
+// The replay file lists, in order, the source positions ("gates") at which the engine fired visible
+// operations. Instrumented copies of the real sources call At(pos) before those statements. At blocks
+// until pos is the next expected gate; a watchdog skips a gate nobody reaches (select choices made by
+// the Go runtime, merged releases), so a replay can lose synchronisation but never hangs because of it.
+
+type gatePlan struct {
+	Gates []string `json:"gates"`
+}
+
+var (
+	gmu       sync.Mutex
+	gcond     = sync.NewCond(&gmu)
+	gates     []string
+	gidx      int
+	gloaded   bool
+	gfollowed int
+	gskipped  int
+	gwaiters  int
+	glast     time.Time
+)
+
+func loadGates() {
+	if gloaded {
+		return
+	}
+	gloaded = true
+	p := os.Getenv("VERIF_REPLAY")
+	if p == "" {
+		return
+	}
+	b, err := os.ReadFile(p)
+	if err != nil {
+		return
+	}
+	var gp gatePlan
+	if json.Unmarshal(b, &gp) == nil {
+		gates = gp.Gates
+	}
+	glast = time.Now()
+	if len(gates) > 0 {
+		go func() {
+			for {
+				time.Sleep(20 * time.Millisecond)
+				gmu.Lock()
+				if gidx >= len(gates) {
+					gmu.Unlock()
+					return
+				}
+				if time.Since(glast) > 120*time.Millisecond {
+					// nobody reached the expected gate: skip it
+					gidx++
+					gskipped++
+					glast = time.Now()
+					gcond.Broadcast()
+				}
+				gmu.Unlock()
+			}
+		}()
+	}
+}
+
+// At is called by instrumented code before a statement that performs a visible operation.
+func At(pos string) {
+	gmu.Lock()
+	defer gmu.Unlock()
+	loadGates()
+	if len(gates) == 0 {
+		return
+	}
+	deadline := time.Now().Add(2 * time.Second)
+	for gidx < len(gates) {
+		if gates[gidx] == pos {
+			gidx++
+			gfollowed++
+			glast = time.Now()
+			gcond.Broadcast()
+			return
+		}
+		// is this position expected later at all? if not, do not wait
+		later := false
+		for _, g := range gates[gidx:] {
+			if g == pos {
+				later = true
+				break
+			}
+		}
+		if !later || time.Now().After(deadline) {
+			return
+		}
+		gwaiters++
+		waitCond(60 * time.Millisecond)
+		gwaiters--
+	}
+}
+
+func waitCond(d time.Duration) {
+	t := time.AfterFunc(d, func() { gmu.Lock(); gcond.Broadcast(); gmu.Unlock() })
+	gcond.Wait()
+	t.Stop()
+}
+
+func gateReport() {
+	gmu.Lock()
+	defer gmu.Unlock()
+	if len(gates) > 0 {
+		fmt.Printf("VRT-SCHEDULE gates=%d followed=%d skipped=%d\n", len(gates), gfollowed, gskipped)
+	}
 }
